@@ -138,7 +138,33 @@ func (w *World) verifyFunction(c *Contract) (res *FuncResult) {
 		}
 		for _, rs := range fr.retVals {
 			post := vc.contractEnv(c, args, rs.vals, rs.st, vc.entry)
-			vc.assume(rs.st.cond, vc.specBool(post, cl.Expr))
+			// declared locals keep, at a return, the value of their last definition that dominates it; a
+			// usepost clause that mentions a local without a value on this way out does not apply there
+			if rs.instr != nil {
+				for i := c.NIn + c.NRes; i < len(c.Params); i++ {
+					if v, ok := vc.localAt(fr, rs.instr, c.Params[i].Name()); ok {
+						if !types.Identical(v.T, c.Params[i].Type()) && len(v.L) == len(layoutOf(c.Params[i].Type()).Leaves) {
+							v = Val{T: c.Params[i].Type(), L: v.L}
+						}
+						post.vars[c.Params[i]] = v
+					}
+				}
+			}
+			t, applies := func() (t string, ok bool) {
+				defer func() {
+					if r := recover(); r != nil {
+						if os, isOut := r.(outsideSubset); isOut && strings.Contains(os.msg, "unbound identifier") {
+							t, ok = "", false
+							return
+						}
+						panic(r)
+					}
+				}()
+				return vc.specBool(post, cl.Expr), true
+			}()
+			if applies {
+				vc.assume(rs.st.cond, t)
+			}
 		}
 		vc.trusted["lemma instance "+cl.Raw.Text+" (proved separately as a lemma obligation)"] = true
 	}
